@@ -411,7 +411,7 @@ def run_witness(ctx, st):
         io = sp._parse_def_from_wb(text, 'workflows:', member + ':')
         if mo != io:
             ctx.disagree('witness', {'name': wname}, mo, io)
-        kind, det, _ = E.guarded(lambda: st['wb_service'].create_workbook_v2(text), 20)
+        kind, det, _ = E.guarded(lambda: st['wb_service'].create_workbook_v2(text), 1)
         try:
             if kind != 'ok':
                 ctx.disagree('witness', {'name': wname, 'what': 'witness workbook not accepted'}, 'accepted', det)
@@ -422,7 +422,7 @@ def run_witness(ctx, st):
                 row_spec = E.dcopy(dict(row.spec))
             want = sp.get_workflow_spec(row_spec)
             cut_text = "version: '2.0'\n" + stored
-            k2, d2, lst = E.guarded(lambda: sp.get_workflow_list_spec_from_yaml(cut_text, validate=True).get_workflows(), 20)
+            k2, d2, lst = E.guarded(lambda: sp.get_workflow_list_spec_from_yaml(cut_text, validate=True).get_workflows(), 1)
             same = k2 == 'ok' and len(lst) == 1 and E.observe(lst[0]) == E.observe(want)
             ctx.count('witness', '%s:%s' % (wname, 'stored-definition-is-the-member' if same else 'stored-definition-is-NOT-the-member'))
             if not same:
